@@ -30,9 +30,10 @@ def run_one(spec):
             return sid, "PATCH DOES NOT APPLY"
         ver = os.path.join(base, "verif")
         subprocess.run(["rsync", "-a", SNAP + "/", ver + "/"], check=True)
-        ct = os.path.join(ver, "harness", "Cargo.toml")
-        toml = open(ct).read().replace('path = "/repo"', 'path = "%s"' % repo)
-        open(ct, "w").write(toml)
+        for h in ("harness", "harness_rt"):
+            ct = os.path.join(ver, h, "Cargo.toml")
+            toml = open(ct).read().replace('path = "/repo"', 'path = "%s"' % repo)
+            open(ct, "w").write(toml)
         env = dict(os.environ, RXV_REPO=repo)
         for c in checks:
             out = subprocess.run([os.path.join(ver, "check"), c, "--tier", "quick"], capture_output=True, text=True, cwd=ver, env=env).stdout
